@@ -12,6 +12,7 @@
 #include <sanitizer/lsan_interface.h>
 #include <signal.h>
 #include <sys/prctl.h>
+#include <sys/time.h>
 #include <sys/stat.h>
 #include <sys/wait.h>
 #include <time.h>
@@ -32,8 +33,9 @@ using vf::fmt;
 // ------------------------------------------------------------------------------------------------
 // shared memory between monitor and SP
 
-enum { K_WAITPID = 0, K_POLL = 1, K_READ = 2, K_WRITE = 3, K_KILL = 4, K_NKINDS = 5 };
-static const char* KIND_NAMES[] = {"waitpid", "poll", "read", "write", "kill"};
+// K_WAITB counts only blocking waitpid calls (no WNOHANG): the only waitpid calls a signal can interrupt
+enum { K_WAITPID = 0, K_POLL = 1, K_READ = 2, K_WRITE = 3, K_KILL = 4, K_WAITB = 5, K_NKINDS = 6 };
+static const char* KIND_NAMES[] = {"waitpid", "poll", "read", "write", "kill", "waitpid-blocking"};
 
 struct Shm {
   volatile int32_t child_pid;
@@ -53,6 +55,8 @@ struct Shm {
   volatile uint64_t t_term_ns;    // when the first signal was sent
   volatile int32_t kill_sent;     // SIGKILL has been sent
   volatile int32_t late_nosig;    // loop iterations begun > timeout + 5 s after t0 with no signal sent yet
+  volatile int32_t eintr_injected[K_NKINDS];  // calls answered with -1/EINTR by the plan without being performed
+  volatile int32_t eintr_observed[K_NKINDS];  // real calls that came back with EINTR (signal storm / sibling SIGCHLD)
   volatile int32_t late_nokill;   // loop iterations begun > 10 s after the first signal, child not SIGKILLed yet
   volatile uint32_t rec_len;
   char rec[48 * 1024];
@@ -60,7 +64,8 @@ struct Shm {
 static Shm* g_shm;
 static volatile bool g_active = false;  // true only while the SP is inside the phosg call
 
-enum { MODE_SLEEP = 0, MODE_SETTLE = 1 };
+enum { MODE_SLEEP = 0, MODE_SETTLE = 1, MODE_EINTR = 2 };
+enum { SIG_NONE = 0, SIG_ALARM_STORM = 1, SIG_SIBLING_CHLD = 2 };
 struct Delay {
   int kind;
   uint32_t k;  // 1-based call number of that kind
@@ -71,17 +76,21 @@ struct Plan {
   Delay items[4];
   int n = 0;
   uint32_t all_us = 0;  // delay before every wrapped call
+  int sig = SIG_NONE;   // real signals (handler without SA_RESTART) arriving in the parent during the call
   string str() const {
     string r;
     for (int i = 0; i < n; i++) {
       if (!r.empty()) r += ",";
       r += fmt("%s#%u:", KIND_NAMES[items[i].kind], items[i].k);
-      r += items[i].mode == MODE_SETTLE ? string("settle") : fmt("%uus", items[i].us);
+      r += items[i].mode == MODE_SETTLE ? string("settle") : items[i].mode == MODE_EINTR ? string("EINTR") : fmt("%uus", items[i].us);
     }
     if (all_us) r += fmt("%sall:%uus", r.empty() ? "" : ",", all_us);
+    if (sig) r += string(r.empty() ? "" : ",") + (sig == SIG_ALARM_STORM ? "signals:SIGALRM-every-3ms" : "signals:SIGCHLD-from-3-siblings");
     return r.empty() ? "none" : r;
   }
   string cls() const {
+    if (sig) return sig == SIG_ALARM_STORM ? "plan:signals:sigalrm-storm" : "plan:signals:sibling-sigchld";
+    if (n >= 1 && items[0].mode == MODE_EINTR) return fmt("plan:%s:eintr%s", KIND_NAMES[items[0].kind], n > 1 ? "-multi" : "");
     if (n == 0 && !all_us) return "plan:none";
     if (n == 0) return "plan:all-calls";
     if (n > 1) return "plan:random-multi";
@@ -213,10 +222,25 @@ static void apply_delay(int kind, uint64_t k) {
     const Delay& d = g_plan.items[i];
     if (d.kind == kind && d.k == k) {
       if (d.mode == MODE_SETTLE) wait_child_settled();
-      else sleep_us(d.us);
+      else if (d.mode == MODE_SLEEP) sleep_us(d.us);
     }
   }
   if (g_plan.all_us) sleep_us(g_plan.all_us);
+}
+
+// EINTR as a fault: the k-th call of this kind is not performed and fails as if a signal handler had run
+static bool inject_eintr(int kind, uint64_t k) {
+  for (int i = 0; i < g_plan.n; i++) {
+    const Delay& d = g_plan.items[i];
+    if (d.kind == kind && d.k == k && d.mode == MODE_EINTR) {
+      g_shm->eintr_injected[kind] = g_shm->eintr_injected[kind] + 1;
+      return true;
+    }
+  }
+  return false;
+}
+static inline void note_eintr(int kind, long r) {
+  if (r < 0 && errno == EINTR) g_shm->eintr_observed[kind] = g_shm->eintr_observed[kind] + 1;
 }
 
 extern "C" pid_t __wrap_waitpid(pid_t p, int* st, int opt) {
@@ -234,7 +258,23 @@ extern "C" pid_t __wrap_waitpid(pid_t p, int* st, int opt) {
     }
   }
   apply_delay(K_WAITPID, k);
+  const bool blocking = !(opt & WNOHANG);
+  if (blocking) {
+    uint64_t kb = ++g_shm->calls[K_WAITB];
+    if (inject_eintr(K_WAITB, kb)) {
+      // what the kernel does when a signal is already pending on entry: a child that has exited is still returned,
+      // otherwise the call fails with EINTR instead of sleeping
+      pid_t r0 = __real_waitpid(p, st, opt | WNOHANG);
+      if (r0 != 0) {
+        if (r0 > 0 && r0 == g_shm->child_pid) g_shm->reaped = 1;
+        return r0;
+      }
+      errno = EINTR;
+      return -1;
+    }
+  }
   pid_t r = __real_waitpid(p, st, opt);
+  if (blocking) note_eintr(K_WAITB, r);
   if (r > 0 && r == g_shm->child_pid) {
     int e = errno;
     g_shm->reaped = 1;
@@ -247,7 +287,16 @@ extern "C" int __wrap_poll(struct pollfd* fds, nfds_t n, int timeout) {
   uint64_t k = ++g_shm->calls[K_POLL];
   g_shm->last_poll_timeout = timeout;
   apply_delay(K_POLL, k);
+  if (inject_eintr(K_POLL, k)) {
+    // as the kernel does with a signal pending on entry: descriptors that are ready now are still reported
+    // (so a poll(0) over data that is already there cannot fail), otherwise EINTR instead of sleeping
+    int r0 = __real_poll(fds, n, 0);
+    if (r0 != 0) return r0;
+    errno = EINTR;
+    return -1;
+  }
   int r = __real_poll(fds, n, timeout);
+  note_eintr(K_POLL, r);
   if (r == 0 && timeout > 0) g_shm->poll_timeout_ms_sum += timeout;
   return r;
 }
@@ -255,7 +304,12 @@ extern "C" ssize_t __wrap_read(int fd, void* b, size_t n) {
   if (!g_active) return __real_read(fd, b, n);
   uint64_t k = ++g_shm->calls[K_READ];
   apply_delay(K_READ, k);
+  if (inject_eintr(K_READ, k)) {
+    errno = EINTR;
+    return -1;
+  }
   ssize_t r = __real_read(fd, b, n);
+  note_eintr(K_READ, r);
   if (r > 0) g_shm->rd_bytes += r;
   return r;
 }
@@ -263,7 +317,12 @@ extern "C" ssize_t __wrap_write(int fd, const void* b, size_t n) {
   if (!g_active) return __real_write(fd, b, n);
   uint64_t k = ++g_shm->calls[K_WRITE];
   apply_delay(K_WRITE, k);
+  if (inject_eintr(K_WRITE, k)) {
+    errno = EINTR;
+    return -1;
+  }
   ssize_t r = __real_write(fd, b, n);
+  note_eintr(K_WRITE, r);
   if (r > 0) g_shm->wr_bytes += r;
   return r;
 }
@@ -740,6 +799,104 @@ static vector<Scenario> build_scenarios(const vf::Ctx& c) {
         finish(sc);
       }
   }
+  // ---- EINTR: a signal handler installed without SA_RESTART runs in the parent during the call.  Injected
+  //      deterministically at the calls a signal can really interrupt (poll; waitpid without WNOHANG), and produced for
+  //      real by a 3 ms SIGALRM interval timer or by three sibling children exiting (SIGCHLD) during the call.
+  {
+    auto E = [&](int kind, uint32_t k) { return single(kind, k, MODE_EINTR, 0); };
+    auto E2 = [&](int k1, uint32_t n1, int k2, uint32_t n2) {
+      Plan p;
+      p.n = 2;
+      p.items[0] = Delay{k1, n1, MODE_EINTR, 0};
+      p.items[1] = Delay{k2, n2, MODE_EINTR, 0};
+      return p;
+    };
+    Plan storm, sibling;
+    storm.sig = SIG_ALARM_STORM;
+    sibling.sig = SIG_SIBLING_CHLD;
+    const bool probe_all = c.arg("eintr") == "all";  // also at read/write and WNOHANG sites (cannot happen for real: probe only)
+    vector<Plan> rp_plans = {E(K_POLL, 1), E(K_POLL, 2), E(K_POLL, 3), E(K_POLL, 5), E2(K_POLL, 1, K_POLL, 2), storm, sibling};
+    if (probe_all) {
+      rp_plans = {E(K_READ, 1), E(K_READ, 2), E(K_READ, 3), E(K_WRITE, 1), E(K_WRITE, 2), E(K_WAITPID, 1), E(K_WAITPID, 3)};
+    }
+    static const char* rbeh[] = {"cat", "read-all-then-write", "exit-before-poll", "pause-then-write", "close-stdout-early", "huge-stderr",
+                                 "close-stdin-early-linger"};
+    static const size_t pairs[3][2] = {{4096, 65537}, {1048576, 4095}, {0, 131072}};
+    for (int b = 0; b < 7; b++)
+      for (int pi = 0; pi < 3; pi++)
+        for (size_t pl = 0; pl < rp_plans.size(); pl++) {
+          if (quick && (b + pi + pl) % 3 != 0) continue;
+          Scenario sc;
+          sc.api = RP;
+          make_script(sc, rbeh[b], pairs[pi][0], pairs[pi][1], (unsigned)(b + pi + pl));
+          sc.plan = rp_plans[pl];
+          sc.check = (b + pl) % 4 == 0;
+          finish(sc);
+        }
+    vector<Plan> cm_plans = {E(K_POLL, 1), E(K_POLL, 2), E(K_POLL, 4), E(K_WAITB, 1), E2(K_WAITB, 1, K_WAITB, 2), storm, sibling};
+    if (probe_all) cm_plans = {E(K_READ, 1), E(K_READ, 2), E(K_WRITE, 1), E(K_WRITE, 2), E(K_WAITPID, 1), E(K_WAITPID, 2), E(K_READ, 4)};
+    static const char* cbeh[] = {"cat", "close-stdout-early", "read-all-then-write", "close-stdin-early-linger", "pause-then-write", "no-output",
+                                 "closes-stdout-then-lingers"};
+    static const size_t cpairs[2][2] = {{4097, 65536}, {131072, 10}};
+    for (int b = 0; b < 7; b++)
+      for (int pi = 0; pi < 2; pi++)
+        for (int dl = 0; dl < 2; dl++)
+          for (size_t pl = 0; pl < cm_plans.size(); pl++) {
+            if (quick && (b + pi + dl + pl) % 3 != 0) continue;
+            Scenario sc;
+            sc.api = CM;
+            if (b == 6) {
+              // reaches communicate's blocking wait(): both descriptors are finished with while the child lingers
+              sc.beh = cbeh[b];
+              sc.payload = cpairs[pi][0];
+              sc.vol = cpairs[pi][1];
+              sc.ops = {W(1, sc.vol), "C:1", "R:*:65536:0", "S:250", fmt("X:%d", pi)};
+            } else {
+              make_script(sc, cbeh[b], cpairs[pi][0], cpairs[pi][1], (unsigned)(b + pi + pl));
+            }
+            sc.timeout_us = dl ? 60000000ULL : 0;
+            sc.ptr_overload = (pl + dl) % 2;
+            sc.plan = cm_plans[pl];
+            finish(sc);
+          }
+    if (!probe_all) {
+      // the destructor's kill + blocking wait, a plain blocking wait(), kill() + wait()
+      for (int k : {0, 2, 4})
+        for (int pl = 0; pl < 3; pl++) {
+          Scenario sc;
+          sc.api = LIFE;
+          sc.life_kind = k;
+          sc.beh = k == 0 ? "destroy-sleeping" : k == 2 ? "wait-exit-code" : "kill-then-wait";
+          if (k == 2) sc.ops = {"S:200", "X:7"};
+          else sc.ops = {"S:600000"};
+          sc.plan = pl == 0 ? E(K_WAITB, 1) : pl == 1 ? storm : sibling;
+          finish(sc);
+        }
+      for (int pl = 0; pl < 2; pl++) {
+        Scenario sc;
+        sc.api = CM;
+        sc.beh = "deadline-expires";
+        sc.payload = 100;
+        sc.vol = 500;
+        sc.ops = {W(1, 500), "S:600000", "X:0"};
+        sc.timeout_us = 300000;
+        sc.plan = pl ? storm : E(K_WAITB, 1);
+        finish(sc);
+      }
+      for (int pl = 0; pl < 2; pl++) {
+        Scenario sc;
+        sc.api = RP;
+        sc.beh = pl ? "timeout-ticking-stdout" : "timeout";
+        sc.vol = 100;
+        if (pl) sc.ops = {W(1, 50), "Y:1:150"};
+        else sc.ops = {W(1, 2000), "S:600000", "X:0"};
+        sc.stdin_null = true;
+        sc.timeout_us = 400000;
+        sc.plan = pl ? sibling : storm;
+        finish(sc);
+      }
+    }
+  }
   // ---- run_process called repeatedly in one process: descriptors must not accumulate
   for (int i = 0; i < (quick ? 2 : 6); i++) {
     Scenario sc;
@@ -796,7 +953,7 @@ static vector<Scenario> build_scenarios(const vf::Ctx& c) {
     switch (k) {
       case 0: sc.ops = {"S:600000"}; break;
       case 1: sc.ops = {"R:*:4096:0", "X:0"}; break;
-      case 2: sc.ops = {"X:7"}; break;
+      case 2: sc.ops = {"S:150", "X:7"}; break;
       case 3: sc.ops = {"K:15"}; break;
       case 4: sc.ops = {"S:600000"}; break;
     }
@@ -829,7 +986,8 @@ static void rec(char kind, const string& key, const string& what = "") {
   memcpy(g_shm->rec + o, line.data(), line.size());
   g_shm->rec_len = o + line.size();
 }
-static void viol(const string& key, const string& what) { rec('V', key, what); }
+static string g_viol_prefix;  // "probe-unrealistic-eintr:" when EINTR is injected where no signal could cause it
+static void viol(const string& key, const string& what) { rec('V', g_viol_prefix + key, what); }
 static void cls(const string& key) { rec('C', key); }
 static void cnt(const string& key) { rec('N', key); }
 
@@ -958,6 +1116,57 @@ static double mono() {
   return ts.tv_sec + ts.tv_nsec * 1e-9;
 }
 
+// Real signals in the parent during the call (handler without SA_RESTART): a 3 ms SIGALRM interval timer, or three
+// sibling children of the scenario process that exit 20 / 100 / 300 ms into the call (SIGCHLD).
+static volatile sig_atomic_t g_sig_count = 0;
+static void on_signal(int) { g_sig_count = g_sig_count + 1; }
+struct SignalEnv {
+  int mode = SIG_NONE;
+  pid_t sibs[3] = {0, 0, 0};
+  void start(int m) {
+    mode = m;
+    if (!mode) return;
+    struct sigaction sa;
+    memset(&sa, 0, sizeof(sa));
+    sa.sa_handler = on_signal;
+    sigemptyset(&sa.sa_mask);
+    sa.sa_flags = 0;  // no SA_RESTART
+    if (mode == SIG_ALARM_STORM) {
+      sigaction(SIGALRM, &sa, nullptr);
+      struct itimerval it = {{0, 3000}, {0, 3000}};
+      setitimer(ITIMER_REAL, &it, nullptr);  // not inherited by fork(); the exec'd child never sees it
+    } else {
+      sigaction(SIGCHLD, &sa, nullptr);
+      static const unsigned delays_ms[3] = {20, 100, 300};
+      for (int i = 0; i < 3; i++) {
+        pid_t p = __real_fork();
+        if (p == 0) {
+          prctl(PR_SET_PDEATHSIG, SIGKILL);
+          sleep_us(delays_ms[i] * 1000ULL);
+          _exit(0);
+        }
+        sibs[i] = p;
+      }
+    }
+  }
+  void stop() {
+    if (!mode) return;
+    if (mode == SIG_ALARM_STORM) {
+      struct itimerval it = {{0, 0}, {0, 0}};
+      setitimer(ITIMER_REAL, &it, nullptr);
+    } else {
+      for (pid_t p : sibs)
+        if (p > 0)
+          while (__real_waitpid(p, nullptr, 0) < 0 && errno == EINTR) {
+          }
+      signal(SIGCHLD, SIG_DFL);
+    }
+    rec('N', "signals:delivered-to-parent", fmt("%d", (int)g_sig_count));
+    mode = SIG_NONE;
+  }
+};
+static SignalEnv g_sigenv;
+
 static void sp_run_process(const Scenario& sc) {
   const string api = "run_process";
   string payload;
@@ -970,6 +1179,7 @@ static void sp_run_process(const Scenario& sc) {
   string msg;
   g_shm->phase = 1;
   g_shm->t0_ns = mono_ns();
+  g_sigenv.start(sc.plan.sig);
   g_active = true;
   vf::poison_errno();
   try {
@@ -979,6 +1189,7 @@ static void sp_run_process(const Scenario& sc) {
     msg = ex.what();
   }
   g_active = false;
+  g_sigenv.stop();
   g_shm->phase = 2;
   pid_t child = g_shm->child_pid;
 
@@ -1095,6 +1306,7 @@ static void sp_communicate(const Scenario& sc) {
   double t0 = mono(), t1 = t0;
   {
     g_shm->phase = 1;
+    g_sigenv.start(sc.plan.sig);
     g_active = true;  // constructor forks inside
     vf::poison_errno();
     try {
@@ -1120,6 +1332,7 @@ static void sp_communicate(const Scenario& sc) {
       msg = string("(constructor/destructor) ") + ex.what();
     }
     g_active = false;
+    g_sigenv.stop();
     g_shm->phase = 2;
   }
   close(devnull);
@@ -1157,6 +1370,7 @@ static void sp_lifecycle(const Scenario& sc) {
   vector<string> cmd = make_cmd(sc);
   pid_t child = 0;
   g_shm->phase = 1;
+  g_sigenv.start(sc.plan.sig);
   g_active = true;
   vf::poison_errno();
   try {
@@ -1180,6 +1394,7 @@ static void sp_lifecycle(const Scenario& sc) {
     viol(api + ":exception:" + exc_class(ex.what()), printable(ex.what(), 160));
   }
   g_active = false;
+  g_sigenv.stop();
   g_shm->phase = 2;
   unlink(g_receipt.c_str());
   if (child > 0 && __real_kill(child, 0) == 0) {
@@ -1228,6 +1443,9 @@ static void sp_main(const Scenario& sc) {
   setpgid(0, 0);  // own process group: the monitor kills the whole group (lingering grandchildren) afterwards
   g_shm->timeout_us = (sc.api == RP && sc.timeout_us && sc.timeout_us < 100000000ULL) ? sc.timeout_us : 0;
   g_plan = sc.plan;
+  for (int i = 0; i < sc.plan.n; i++)
+    if (sc.plan.items[i].mode == MODE_EINTR && sc.plan.items[i].kind != K_POLL && sc.plan.items[i].kind != K_WAITB)
+      g_viol_prefix = "probe-unrealistic-eintr:";
   unlink(g_receipt.c_str());
   switch (sc.api) {
     case RP: sp_run_process(sc); break;
@@ -1238,6 +1456,10 @@ static void sp_main(const Scenario& sc) {
   }
   for (int k = 0; k < K_NKINDS; k++)
     if (g_shm->calls[k]) rec('N', fmt("shim:%s-calls", KIND_NAMES[k]), fmt("%" PRIu64, (uint64_t)g_shm->calls[k]));
+  for (int k = 0; k < K_NKINDS; k++) {
+    if (g_shm->eintr_injected[k]) cls(fmt("eintr:injected:%s", KIND_NAMES[k]));
+    if (g_shm->eintr_observed[k]) cls(fmt("eintr:observed:%s", KIND_NAMES[k]));
+  }
   rec('N', "shim:bytes-read", fmt("%" PRIu64, (uint64_t)g_shm->rd_bytes));
   rec('N', "shim:bytes-written", fmt("%" PRIu64, (uint64_t)g_shm->wr_bytes));
   if (g_shm->nsigs) {
